@@ -361,6 +361,49 @@ def run_case(case):
             v["mech"] = "incoherent-after-rejection:" + v["mech"]
     M.auto_update = True
     M.update()
+    # ---- a model with pending updates (auto-update off, an input re-assigned, no update) comes back from save/load and
+    # from deepcopy exactly as it was: same values, same outdated flags, auto-update still off
+    setb = prog.settable()
+    if setb and case["idx"] % 2:
+        import io as _io2
+
+        sid_, how_, obj_ = setb[int(rng.integers(len(setb)))]
+        M.auto_update = False
+        obj_.value = jnp.asarray(np.asarray(obj_.value) + np.float32(1.5))
+        pend = state_map(M)
+        n_out = sum(1 for _v, o_ in pend.values() if o_)
+        for label in ("save/load", "deepcopy"):
+            try:
+                if label == "deepcopy":
+                    Mp = copy.deepcopy(M)
+                else:
+                    bufp = _io2.BytesIO()
+                    lsl.save_model(M, bufp)
+                    bufp.seek(0)
+                    Mp = lsl.load_model(bufp)
+            except Exception as exc:  # noqa: BLE001
+                mech, text = exc_mech(exc)
+                if mech is None:
+                    raise
+                res.violation("roundtrip-raises", f"{label} of a model with pending updates raised\n{text[-800:]}", w)
+                continue
+            res.mon("roundtrip_state_equal")
+            got = state_map(Mp)
+            bad = [k for k in pend if k not in got or got[k][1] != pend[k][1] or (pend[k][0] is None) != (got[k][0] is None)
+                   or (pend[k][0] is not None and pend[k][0].tobytes() != got[k][0].tobytes())]
+            if bad or Mp.auto_update:
+                k = bad[0] if bad else None
+                res.violation("roundtrip-state", f"{label} of a model with {n_out} pending (outdated) nodes and auto-update off: "
+                              + (f"node {k} came back as value {None if got.get(k, (None,))[0] is None else got[k][0].tolist()} "
+                                 f"outdated={got.get(k, (None, None))[1]}, original value "
+                                 f"{None if pend[k][0] is None else pend[k][0].tolist()} outdated={pend[k][1]}" if k else
+                                 "auto_update came back switched on"), w)
+        res.ev("pending_state_roundtrips")
+        M.update()
+        M.auto_update = True
+        for n in prog.nodes:
+            if n.kind in ("input", "seed"):
+                prog.cur_inputs[n.sid] = np.asarray(n.obj.value)
     # ---- round trips
     trips = ["deepcopy", "copy_true_twice", "save_file", "save_buffer", "copy_nodes_rebuild"]
     chosen = [t for t in trips if rng.random() < 0.5]
@@ -507,6 +550,7 @@ def snapshot_no_values(model):
 
 def negative_builds(res, rng):
     import liesel.model as lsl
+    import tensorflow_probability.substrates.jax.distributions as tfd_
 
     # duplicate node names
     res.mon("rejects_duplicates")
@@ -526,6 +570,22 @@ def negative_builds(res, rng):
         res.violation("duplicate-accepted", "graph with two variables named 'same' was accepted", {})
     except Exception:  # noqa: BLE001
         pass
+    # a stand-alone distribution node whose `at` node is reachable through nothing but that link
+    res.mon("complete_and_unique")
+    lonely = lsl.Value(0.3, _name="lonely")
+    dfree = lsl.Dist(tfd_.Normal, loc=0.0, scale=1.0, _name="free_dist")
+    dfree.at = lonely
+    mfree = lsl.GraphBuilder().add(dfree).build_model()
+    if "lonely" not in mfree.nodes or mfree.nodes["lonely"] is not lonely or lonely.model is not mfree:
+        res.violation("incomplete", "a model built from a stand-alone Dist lacks the node the distribution is evaluated at "
+                      f"(model.nodes = {sorted(mfree.nodes)}, the node's name is {lonely.name!r})", {})
+    else:
+        lp_before = float(mfree.log_prob)
+        lonely.value = 2.0
+        if abs(float(mfree.log_prob) - float(tfd_.Normal(0.0, 1.0).log_prob(2.0))) > 1e-5 or lp_before == float(mfree.log_prob):
+            res.violation("incomplete", "assigning the `at` node of a stand-alone Dist does not update the model's log_prob", {})
+        if dfree not in lonely.outputs:
+            res.violation("outputs", "the `at` node of a stand-alone Dist does not list the Dist among its outputs", {})
     # two variables that end up with the same name although all their NODES have distinct (user-given) names
     import tensorflow_probability.substrates.jax.distributions as tfd
 
